@@ -51,6 +51,9 @@ class Finding:
                 'msg': self.msg, 'detail': self.detail}
 
 
+MAIN_REPORT = None
+
+
 class Report:
     """Collects what a property check examined and what it found."""
 
@@ -64,6 +67,9 @@ class Report:
         self.exceptions = []     # exception-table entries in force
         self.analysed = {}       # free-form: translation units, functions, files
         self.t0 = time.time()
+        global MAIN_REPORT
+        if MAIN_REPORT is None:
+            MAIN_REPORT = self           # the first report of the process is the one check.py finishes
 
     # -- rule registration ---------------------------------------------------
     def rule(self, rid, desc, floor=0):
@@ -146,11 +152,16 @@ def load_known_findings(path=None):
 # -- evidence -------------------------------------------------------------------
 
 def finish(report, level='other', explanation='', assumptions=(), decided='', not_decided='',
-           write_evidence=True, evidence_dir=None):
-    """Print the report, write evidence, return the exit code."""
+           write_evidence=True, evidence_dir=None, incomplete=None):
+    """Print the report, write evidence, return the exit code.  incomplete: the text of an analysis error that stopped the rules
+    part-way - what was found until then is still reported (a violation is a violation), the vacuity floors are not applied, and
+    without a violation the exit code is 2."""
     pid = report.pid
     cfg = report.cfg
-    report.check_floors()
+    if incomplete is None:
+        report.check_floors()
+    else:
+        report.notes.append('analysis incomplete: %s' % incomplete)
     known, _fixed = load_known_findings()
     new = []
     listed = []
@@ -242,6 +253,9 @@ def finish(report, level='other', explanation='', assumptions=(), decided='', no
             json.dump(ev, fh, indent=1, default=_json_default)
     print('%s: %d obligation sites over %d rules, %d known finding(s), %d new violation(s), %.1fs' %
           (pid, tot_inst, len(report.rules), len({f.key() for f in listed}), nviol, wall))
+    if incomplete is not None:
+        print('ANALYSIS-ERROR: property=%s %s' % (pid, incomplete))
+        return 1 if nviol else 2
     return 1 if nviol else 0
 
 
